@@ -299,7 +299,7 @@ def run(ctx):
             ctx.count("plan:%s%s" % (totals, "+reentrant" if spawn else ""))
             oracle(ctx, totals, spawn, sch, res)
             batch.append((totals, spawn, sch, res))
-        exhaustive[str((totals, spawn))] = n < limit
+        exhaustive[str((totals, spawn, "preemptions<=%d" % pb))] = n < limit
         if model:
             run_model_compare(ctx, model, batch)
     # a write that fails without ending the stream
